@@ -1508,4 +1508,22 @@ theorem compileSq5_correct (O : Oracle) (P : Prog) (hO : OracleIntEq O) (hP : wf
     (by intro sv hs; simp [topSem] at hs) hev
   exact liftX O P (topSem Φ bi n) hc.1 hts hc.2.2 hbi fn f r pre hfn run p (InvE.ofC hp)
 
+/-- `compileSq5_correct` for a sequence that runs to its END and is not the last thing in the function's code
+(every sequence inside a function body: the parameter clear `Reset` follows): the process is in `InvC`, in the
+same frame, after the code, with the value and the locals the meaning gives. -/
+theorem compileSq5_correct_inner (O : Oracle) (P : Prog) (hO : OracleIntEq O) (hP : wfProg P) (Φ : FTab)
+    (hΦ : FnOK P Φ) (bi : Nat → Val → Option Val) (hbi : ∀ i a v, bi i a = some v → O.builtin i a = .value v)
+    (n : Nat) (fn : Function) (f : Frame) (r : List Frame) (pre : List Val)
+    (hfn : P.functions[f.functionIndex]? = some fn) (hsz : fn.instructions.size < 2 ^ 63 - 1) (sq : Sq4)
+    (Γ : List String) (pc : Nat) (flow : Val) (rest L : List Val) (v : Val) (L' : List Val)
+    (hl : C02S.Located fn.instructions pc (compileSq Γ sq).1) (hw : wfSq P sq) (hal : L.length = Γ.length)
+    (hnc : f.capturesCount ≤ L.length)
+    (hev : evalSq (topSem Φ bi n) Γ L flow sq = some (.norm v L'))
+    (hin : pc + (compileSq Γ sq).1.length < fn.instructions.size)
+    (p : Proc) (hp : InvC p f r pre pc (flow :: rest) L) :
+    ∃ q, C02S.TRuns O P p q ∧ InvC q f r pre (pc + (compileSq Γ sq).1.length) (v :: rest) L' := by
+  obtain ⟨q, hq, hinv⟩ := compileSq5_correct O P hO hP Φ hΦ bi hbi n fn f r pre hfn hsz sq Γ pc flow rest L _
+    hl hw hal hnc hev p hp
+  exact ⟨q, hq, by simpa [Target] using hinv.1 (by simpa [Target] using hin)⟩
+
 end C02N
